@@ -662,5 +662,5 @@ def run(ctx: Ctx, rep: Report, tier: str) -> None:
 
 
 # what the later rounds (seeding rounds 2-5, refactor twins, defect hunt) added to what the check decides
-LATER_ROUNDS = "members follow the group name, every member is asked before an error about one of them may leave, the memo list is never handed out"
+LATER_ROUNDS = "members follow the group name, every member is asked before an error about one of them may leave, the memo list is never handed out, a refused address line changes nothing, no cache outside the objects"
 EXPLANATION = EXPLANATION.replace(" Does not decide", " Later rounds added: " + LATER_ROUNDS + ". Does not decide", 1) if " Does not decide" in EXPLANATION else EXPLANATION + " Later rounds added: " + LATER_ROUNDS + "."
